@@ -92,6 +92,22 @@ func genCase(t *rapid.T) Case {
 	return c
 }
 
+
+// scribblePadding uses the exported padding helper the way a caller building its own tables does - asks for padding
+// and then writes into what it got - before the library is handed an image: what PaddingBytes returns belongs to the
+// caller, so nothing the library computes afterwards may depend on it.
+func scribblePadding(v int) {
+	for _, n := range []int{v, v + 1, v + 3, v + 5, 1} {
+		for _, bs := range []int{8, 512} {
+			b, k := authenticode.PaddingBytes(n, bs)
+			for i := range b {
+				b[i] = 0xff - byte(i)
+			}
+			_ = k
+		}
+	}
+}
+
 // libHash returns the library digest, or nil with the reason.
 func libHash(img []byte) ([]byte, error) {
 	// the image is handed over behind one of several io.ReaderAt implementations (chosen by the image's bytes)
@@ -99,6 +115,7 @@ func libHash(img []byte) ([]byte, error) {
 	for _, b := range img[len(img)/2:][:min(16, len(img)-len(img)/2)] {
 		variant += int(b)
 	}
+	scribblePadding(variant)
 	r, kind := hx.ReaderAtFor(img, variant)
 	hx.Class("reader/" + kind)
 	p, err := authenticode.Parse(r)
